@@ -52,6 +52,13 @@ def main(argv=None):
                 ctx.extra['selftest'] = selftest.run_for(pid, seed)
             except ImportError:
                 pass
+            from . import sweeps
+            sw = sweeps.run(prog)
+            ctx.extra['package_wide_sweeps'] = sw
+            print('package-wide sweeps (notes, never violations): ' + ', '.join('%s %d/%d' % (k, len(v['hits']), v['sites_examined']) for k, v in sw.items()))
+            for k, v in sw.items():
+                for h in v['hits']:
+                    print('   sweep note [%s] %s @%s -- %s' % (k, h['construct'], h['where'], h['what'][:160]))
         return report.finish(ctx, a.evidence_dir)
     except frontend.AnalysisError as e:
         print('ANALYSIS-ERROR property=%s %s' % (pid, e))
